@@ -255,6 +255,9 @@ func runC15(r *fw.Run) {
 	r.Count("exhaustive_history_len", int64(r.Pick(5, 7)))
 	fw.Parallel(16, len(hists), func(w, i int) {
 		h := hists[i]
+		if r.ViolationCount() > 12 {
+			return
+		}
 		r.Journal(w, h)
 		var viol []string
 		if p := catch(func() { viol = runC15Hist(r, h) }); p != "" {
